@@ -23,8 +23,10 @@
        frame header, read_residual_data = parse_residuals + inverse transforms for both kinds of non-skipped macroblock.
      * (module I) intra prediction, modelled in Model/Vp8Predict.v and tied by the vp8predict correspondence: the ten 4x4 predictors,
        the 16x16 / 8x8 predictors, add_residue and the border construction equal the reference predictors of Spec.VP8.
-   NOT proved: the chaining of these function-level theorems into one frame-level statement (the scalar reads and byte framing of
-   read_frame_header, the skipped-macroblock branch inlined in decode_frame_, the sub-block loop of predict_4x4), and the workspace / border
+     * (module F) FRAME-LEVEL PARSING: read_frame_header = parse_header in every field, and header + macroblock loop of
+       decode_frame_ (Model/Vp8Frame.v, tied to the REAL decode_frame_ by recording hooks) = the reference parse_modes / parse_tokens
+       for every macroblock in raster order (F.parse_frame_refines).
+   NOT proved: the sub-block loop of predict_4x4 with its write-back, and the workspace / border
    bookkeeping = frame-addressed reconstruction and per-macroblock filter traversal: decided on every run by the
    whole-frame correspondence implementation = Spec.VP8.decode on generated key frames (harness c02), and on libwebp. *)
 From Coq Require Import ZArith List Lia.
@@ -32,6 +34,8 @@ From WebP Require Import Gen.Tables Gen.Kernels Lib.ZBits Lib.Arr Spec.VP8Tables
   Proofs.VP8_arraykernels_aux Proofs.VP8_arraykernels Proofs.VP8_filter_params Proofs.VP8_quant.
 From WebP Require Lib.Res Spec.BoolDec Model.ArithDec Model.Vp8Parse Proofs.C15_model Proofs.VP8_parse_base Proofs.VP8_parse_coeffs Proofs.VP8_parse_mbheader
   Proofs.VP8_parse_header Proofs.VP8_parse_residual Proofs.VP8_parse_refuted.
+From WebP Require Model.Vp8Frame Proofs.VP8_frame_base Proofs.VP8_frame_mono Proofs.VP8_frame_header Proofs.VP8_frame_hdrthm Proofs.VP8_frame_residual
+  Proofs.VP8_frame_loop Proofs.VP8_frame_main.
 From WebP Require Model.Vp8Predict Proofs.VP8_predict_base Proofs.VP8_predict_sub Proofs.VP8_predict_border Proofs.VP8_predict.
 Import ListNotations.
 Open Scope Z_scope.
@@ -532,3 +536,84 @@ Module I.
   Proof. exact VP8_predict.luma_border_top_right. Qed.
 
 End I.
+
+(* ---------------- frame-level parsing ---------------- *)
+Module F.
+  Import Lib.Res Lib.ZBits Gen.Kernels Spec.VP8 Spec.VP8Tables Spec.BoolDec Model.ArithDec Model.Vp8Parse Model.Vp8Frame
+    Proofs.VP8_tables Proofs.VP8_quant Proofs.VP8_parse_base Proofs.VP8_parse_coeffs Proofs.VP8_parse_mbheader Proofs.VP8_parse_header Proofs.VP8_parse_residual
+    Proofs.VP8_frame_base Proofs.VP8_frame_mono Proofs.VP8_frame_header Proofs.VP8_frame_hdrthm Proofs.VP8_frame_residual Proofs.VP8_frame_loop Proofs.VP8_frame_main.
+
+  (* read_frame_header as ONE theorem: for every payload whose header the reference parses (reserved colour-space bit clear; no partition starting with byte 0xFF: the C15 hypothesis), the fresh decoder reads it to a state that agrees with the reference header in EVERY field (header_rel: frame and macroblock sizes, segmentation incl. the six dequantisation factors per segment, filter parameters, deltas, partition count, token probability tables, skip probability), with the first-partition reader and every token-partition reader linked to the reference readers; covers the 10-byte frame start, every scalar read in order, init_partitions = parse_partitions *)
+  Theorem read_frame_header_refines :
+    forall data : list Z,
+           Forall byte data ->
+           C15_model.len data < 2 ^ 63 ->
+           forall (h : header) (s : bstate) (parts : list (list Z)),
+           parse_header data = Some (h, s, parts) ->
+           h_color_space h = 0 ->
+           no_ff_start (first_partition data) = true ->
+           forallb no_ff_start parts = true ->
+           exists v0 : Vp8,
+             Vp8_new data = Ok v0 /\
+             ((exists v : Vp8,
+                 read_frame_header v0 = Ok v /\
+                 header_rel h v /\ header_wf h /\ linked (first_partition data) s (v_b v) /\ parts_linked parts v /\ parts_wf h parts) \/
+              read_frame_header v0 = Err EBitStreamError /\ over_read (first_partition data) s).
+  Proof. exact VP8_frame_hdrthm.read_frame_header_refines. Qed.
+
+  (* the skipped-macroblock branch inlined in decode_frame_ (contexts cleared, complexity[0] kept for B_PRED) *)
+  Theorem skipped_macroblock_ok :
+    forall (v : Vp8) (mb : MacroBlock) (mbx p : Z) (t : MacroBlock) (d : Dec),
+           0 <= mbx ->
+           0 <= p ->
+           nth_error (v_partitions v) (Z.to_nat p) = Some d ->
+           nth_error (v_top v) (Z.to_nat mbx) = Some t ->
+           length (mb_complexity t) = 9%nat ->
+           length (mb_complexity (v_left v)) = 9%nat ->
+           skipped_macroblock v mb mbx =
+           Ok
+             (rst v p mbx t d (skc (mb_luma_mode mb =? Tables.vp8_B_PRED) (mb_complexity t))
+                (skc (mb_luma_mode mb =? Tables.vp8_B_PRED) (mb_complexity (v_left v)))).
+  Proof. exact VP8_frame_loop.skipped_macroblock_ok. Qed.
+
+  (* FRAME-LEVEL PARSING: header + the macroblock loop of decode_frame_ (Model/Vp8Frame.v: mirrors the real loop, tied by the vp8frame correspondence on the REAL decode_frame_ through recording hooks) deliver, for every macroblock in raster order, exactly the modes and residual records of the reference (parse_modes from the first partition, parse_tokens from the token partitions: the per-macroblock interleaving of the crate commutes with the two passes of the reference because the partitions are separate streams with disjoint contexts), or BitStreamError exactly when the reference has read beyond a partition; loop invariants (valid stored modes, 0/1 contexts, factor equalities and ranges) are established, not assumed *)
+  Theorem parse_frame_refines :
+    forall data : list Z,
+           Forall byte data ->
+           C15_model.len data < 2 ^ 63 ->
+           forall (h : header) (s : bstate) (parts : list (list Z)),
+           parse_header data = Some (h, s, parts) ->
+           h_color_space h = 0 ->
+           no_ff_start (first_partition data) = true ->
+           forallb no_ff_start parts = true ->
+           let
+           '(modes, s') := parse_modes h s in
+            let
+            '(res0, ps') := parse_tokens h modes (map bd_init parts) in
+             (exists (recs : list (MacroBlock * list Z)) (v vh : Vp8),
+                parse_frame data = Ok (recs, v) /\
+                rows_rel modes res0 recs /\
+                header_rel h vh /\ header_wf h /\ same_hdr vh v /\ linked (first_partition data) s' (v_b v) /\ parts_rel parts ps' v) \/
+             parse_frame data = Err EBitStreamError /\ (over_read (first_partition data) s' \/ parts_over parts ps').
+  Proof. exact VP8_frame_main.parse_frame_refines. Qed.
+
+  (* a stream the reference reads without running beyond any partition parses to the reference values *)
+  Theorem parse_frame_valid :
+    forall data : list Z,
+           Forall byte data ->
+           C15_model.len data < 2 ^ 63 ->
+           forall (h : header) (s : bstate) (parts : list (list Z)),
+           parse_header data = Some (h, s, parts) ->
+           h_color_space h = 0 ->
+           no_ff_start (first_partition data) = true ->
+           forallb no_ff_start parts = true ->
+           let
+           '(modes, s') := parse_modes h s in
+            let
+            '(res0, ps') := parse_tokens h modes (map bd_init parts) in
+             ~ over_read (first_partition data) s' ->
+             ~ parts_over parts ps' ->
+             exists (recs : list (MacroBlock * list Z)) (v : Vp8), parse_frame data = Ok (recs, v) /\ rows_rel modes res0 recs.
+  Proof. exact VP8_frame_main.parse_frame_valid. Qed.
+
+End F.
